@@ -127,6 +127,10 @@ class AuditRun:
             if world["audit_type"] == W.ONEAUDIT:
                 if first:
                     self.pools = self.call("pool_contests", ns.CVR.pool_contests, self.cvr_list)
+                    if self.case.get("pools_restricted"):
+                        # the caller supplies the sets itself: only the contests under audit (cards may carry others)
+                        self.pools = {k: {x for x in v if x in contests} for k, v in self.pools.items()}
+                        self.out.probe("pool contest sets restricted to the contests under audit")
                     self.call("add_pool_contests", ns.CVR.add_pool_contests, self.cvr_list, self.pools)
                 self.call("check_cards", ns.Contest.check_cards, contests, self.cvr_list, force=True)
                 for con in contests.values():  # user-side glue: the bound is a count, keep it a plain int
@@ -257,6 +261,15 @@ class AuditRun:
 
     def mvr_for(self, cvr_or_id):
         rec = self.case["mvr"][cvr_or_id]
+        if self.case.get("persist_mvrs"):
+            # the auditors' record of a card is one object for the whole audit (not re-typed every round)
+            cache = self.__dict__.setdefault("mvr_objs", {})
+            if cvr_or_id not in cache:
+                cache[cvr_or_id] = self._mvr_new(cvr_or_id, rec)
+            return cache[cvr_or_id], rec.get("faults", [])
+        return self._mvr_new(cvr_or_id, rec), rec.get("faults", [])
+
+    def _mvr_new(self, cvr_or_id, rec):
         if self.case.get("mvr_via_from_dict"):
             # the manual records arrive as dicts (the documented route, CVR.from_dict); the 'card not found' flag is
             # whatever the auditors' tool wrote: a bool, a numpy bool, or 1
@@ -270,7 +283,7 @@ class AuditRun:
             m = self.ns.CVR.from_dict([d])[0]
         else:
             m = self.ns.CVR(id=cvr_or_id, votes=copy.deepcopy(rec["votes"]), phantom=bool(rec["phantom"]))
-        return m, rec.get("faults", [])
+        return m
 
     def round(self, r, rnd):
         ns, out = self.ns, self.out
@@ -360,6 +373,11 @@ class AuditRun:
             arg = None
             if rnd["variant"] == "continue" and prev is not None:
                 arg = list(prev)
+                # "indices of cvrs already in the sample": the documentation asks for no particular order
+                if rnd.get("continue_order") == "sorted":
+                    arg.sort()
+                elif rnd.get("continue_order") == "reversed":
+                    arg.reverse()
             idx = self.call("consistent_sampling", ns.CVR.consistent_sampling, cvr_list=self.cvr_list,
                             contests=self.contests, sampled_cvr_indices=arg)
             try:
